@@ -40,6 +40,8 @@ struct V {
     code: u32,
     base: u32,
     update: bool,
+    /// how the row came to exist (update only): 0 = DF11 CA5, 1 = DF11 CA0, 2 = by the sentinel DF4 alone, 3 = by a DF21
+    pre: u32,
 }
 
 fn frame(v: &V, addr: u32) -> Frame {
@@ -68,7 +70,12 @@ fn frame(v: &V, addr: u32) -> Frame {
 fn lines(v: &V, addr: u32) -> Vec<Vec<u8>> {
     let mut l = vec![];
     if v.update {
-        l.push(hexline(&frames::df11(5, addr, 0)));
+        match v.pre {
+            0 => l.push(hexline(&frames::df11(5, addr, 0))),
+            1 => l.push(hexline(&frames::df11(0, addr, 0))),
+            3 => l.push(hexline(&frames::df21(addr, frames::id13_for_squawk(1234), 0))),
+            _ => {}
+        }
         l.push(hexline(&frames::df4(addr, frames::ac13_for_alt(SENTINEL_ALT as i32))));
     }
     l.push(hexline(&frame(v, addr)));
@@ -88,9 +95,9 @@ fn judge(ctx: &mut Ctx, cfg: &Cfg, v: &V, addr: u32, o: &Obs) {
     let want = reference(v);
     let fmt = if v.df == 17 { format!("DF17-TC{}", v.tc) } else { format!("DF{}", v.df) };
     let field = if v.df == 17 { "ac12" } else { "ac13" };
-    let site = format!("C05/q{}/{}/{}/{}/{}", qbit(v), field, fmt, if v.update { "update" } else { "first" }, cfg.label());
+    let site = format!("C05/q{}/{}/{}/{}/{}", qbit(v), field, fmt, if v.update { format!("update-pre{}", v.pre) } else { "first".to_string() }, cfg.label());
     let key = format!("{}={:04X}", field, v.code);
-    let case = || json!({"df": v.df, "tc": v.tc, "code": v.code, "base": v.base, "update": v.update, "cfg": cfg.opts, "addr": addr});
+    let case = || json!({"df": v.df, "tc": v.tc, "code": v.code, "base": v.base, "update": v.update, "pre": v.pre, "cfg": cfg.opts, "addr": addr});
     let Obs::Row(s) = o else {
         ctx.violation(&site, &key, || format!("{fmt} {field} {:04X} ({}): no row / crash: {o:?}", v.code, frame(v, addr).hex()), case);
         return;
@@ -130,18 +137,24 @@ fn run(ctx: &mut Ctx) {
             if df == 4 && base == 2 {
                 continue;
             }
-            for update in [false, true] {
+            for (update, pre) in [(false, 0u32), (true, 0), (true, 1), (true, 2), (true, 3)] {
+                if pre > 0 && base > 0 {
+                    continue;
+                }
                 for code in 0..8192 {
-                    items.push(V { df, tc: 0, code, base, update });
+                    items.push(V { df, tc: 0, code, base, update, pre });
                 }
             }
         }
     }
     for tc in 9..=18 {
         for base in 0..nb {
-            for update in [false, true] {
+            for (update, pre) in [(false, 0u32), (true, 0), (true, 2)] {
+                if pre > 0 && base > 0 {
+                    continue;
+                }
                 for code in 0..4096 {
-                    items.push(V { df: 17, tc, code, base, update });
+                    items.push(V { df: 17, tc, code, base, update, pre });
                 }
             }
         }
@@ -162,11 +175,11 @@ fn run(ctx: &mut Ctx) {
         }
     }
     ctx.sample(|| {
-        let v = V { df: 4, tc: 0, code: frames::ac13_for_alt(38000), base: 0, update: true };
+        let v = V { df: 4, tc: 0, code: frames::ac13_for_alt(38000), base: 0, update: true, pre: 0 };
         json!({"vector": "DF4 update", "lines": lines(&v, BASE).iter().map(|l| String::from_utf8_lossy(l).into_owned()).collect::<Vec<_>>(), "expected_altitude": 38000})
     });
     ctx.sample(|| {
-        let v = V { df: 17, tc: 11, code: 0x010, base: 0, update: false };
+        let v = V { df: 17, tc: 11, code: 0x010, base: 0, update: false, pre: 0 };
         json!({"vector": "DF17 TC11 first, AC12=010 (Q=1, N=0 -> -1000 ft)", "line": frame(&v, BASE).hex(), "expected_altitude": null})
     });
     ctx.bound("AC13", "all 8192 codes x DF4, DF20");
@@ -179,7 +192,7 @@ fn replay(ctx: &mut Ctx, case: &Value) {
     let o: Vec<&str> = opts.iter().map(|s| s.as_str()).collect();
     let cfg = Cfg::new(&o);
     let g = |k: &str| case.get(k).and_then(|x| x.as_u64()).unwrap_or(0) as u32;
-    let v = V { df: g("df"), tc: g("tc"), code: g("code"), base: g("base"), update: case.get("update").and_then(|x| x.as_bool()).unwrap_or(false) };
+    let v = V { df: g("df"), tc: g("tc"), code: g("code"), base: g("base"), update: case.get("update").and_then(|x| x.as_bool()).unwrap_or(false), pre: g("pre") };
     let addr = case.get("addr").and_then(|x| x.as_u64()).map(|a| a as u32).unwrap_or(BASE);
     let ob = single(&cfg, addr, lines(&v, addr));
     crate::run::say(&format!(
